@@ -148,6 +148,8 @@ def specs(draw, max_steps=25, server=True):
             step["share"] = draw(st.booleans())
             # different values for ignored parameters
             step["ign_alt"] = draw(st.one_of(st.none(), value_specs()))
+            # the same call is first made through a second Memory object with another cache directory (same process)
+            step["elsewhere_first"] = draw(st.integers(0, 7)) == 0
         steps.append(step)
     return {"sigs": sigs, "ignore": ignores, "compress": draw(st.sampled_from([False, True, 1, 9])), "steps": steps}
 
@@ -221,6 +223,7 @@ class Machine:
         self.joblib = joblib
         self.mem = joblib.Memory(self.location, compress=spec["compress"], verbose=0)
         self.wrapped = {}
+        self.mem2, self.wrapped2 = None, {}
         self.partials = {}
 
     def plain(self, fi, carrier):
@@ -243,7 +246,17 @@ class Machine:
             self.wrapped[key] = self.mem.cache(self.plain(fi, carrier), ignore=ign)
         return self.wrapped[key]
 
+    def cached_elsewhere(self, fi, carrier):
+        import joblib
+        if self.mem2 is None:
+            self.mem2 = joblib.Memory(self.location + "-other", compress=self.spec["compress"], verbose=0)
+        key = (fi, carrier)
+        if key not in self.wrapped2:
+            self.wrapped2[key] = self.mem2.cache(self.plain(fi, carrier), ignore=list(self.spec["ignore"][fi]))
+        return self.wrapped2[key]
+
     def close(self):
+        shutil.rmtree(self.location + "-other", ignore_errors=True)
         shutil.rmtree(self.location, ignore_errors=True)
         sys.modules.pop(self.mod.__name__, None)
         try:
@@ -317,6 +330,14 @@ def run(spec, scratch, server=None):
             rec["expected"] = list(expected)
             rec["spelling"] = [len(args), sorted(kwargs), step["perm"], json.dumps(a_specs) + json.dumps(k_specs, sort_keys=True) + str(share)]
             wrapped = m.cached(fi, step["carrier"])
+            if step.get("elsewhere_first") and carrier not in ("pA", "pB"):
+                try:
+                    w2 = m.cached_elsewhere(fi, carrier)
+                    out2 = asyncio.run(w2(*args, **kwargs)) if is_async else w2(*args, **kwargs)
+                    rec["elsewhere_value"] = list(out2) if isinstance(out2, tuple) else repr(out2)
+                except Exception as e:
+                    rec["raised"] = "[other cache directory] %s: %s" % (type(e).__name__, str(e)[:300])
+                    continue
             before = len(MF.EXEC_LOG)
             try:
                 if op == "call":
